@@ -1,1 +1,190 @@
-(* placeholder, being written *)
+(* C07, protocol part: timers never fire early, fire in due-time order (ties in submission order),
+   cancel promptly, complete exactly once, and the context keeps no reference to a completed
+   operation -- for timed_single_thread_context (model Proto/TimerQueueDefs.v, all schedules of the
+   timer thread, any number of starting and stop-requesting threads, clock advances of any size,
+   spurious wake-ups) and for thread_unsafe_event_loop (model Proto/UnsafeLoopDefs.v, all
+   interleavings of whole calls on one thread).  Tie: K1 lock-step, harness/k1_timed_context.cpp and
+   harness/k1_unsafe_loop.cpp. *)
+From Coq Require Import ZArith List Bool.
+From V Require Import Base.Sched Arith.SortedInsertDefs Proto.TimerQueueDefs Proto.TimerQueueProofs
+  Proto.UnsafeLoopDefs Proto.UnsafeLoopProofs.
+Import ListNotations.
+Local Open Scope Z_scope.
+
+Module TQ.
+Import TimerQueue.
+
+(* never_early: set_value for operation i at clock value t only if t >= the due time start computed *)
+Theorem C07_tq_never_early : forall now0 specs sched i t,
+  let c := run step sched (init now0 specs, []) in
+  In (EFire i t) (snd c) ->
+  exists o d, nth_error (ops (fst c)) i = Some o /\ orig o = Some d /\ d <= t.
+Proof. exact TimerQueueProofs.never_early. Qed.
+Print Assumptions C07_tq_never_early.
+
+(* the same, grounded in the schedule: the step that starts i at clock value n fixes the due time
+   start_due = n + delay (schedule_after) or the given time point (schedule_at) *)
+Theorem C07_tq_never_early_grounded : forall now0 specs sched1 t1 s1 evs1 sched2 i t,
+  let c1 := run step sched1 (init now0 specs, []) in
+  step t1 (fst c1) = Some (s1, evs1) -> In (EStart i) evs1 ->
+  let c2 := run step sched2 (s1, snd c1 ++ evs1) in
+  In (EFire i t) (snd c2) ->
+  exists o, nth_error (ops (fst c1)) i = Some o /\ start_due (fst c1) o <= t.
+Proof. exact TimerQueueProofs.never_early_grounded. Qed.
+Print Assumptions C07_tq_never_early_grounded.
+
+(* order: the queue is sorted by due time, identities are distinct, the head is a minimum ... *)
+Theorem C07_tq_order_sorted : forall now0 specs sched,
+  let s := fst (run step sched (init now0 specs, [])) in
+  sorted_due (q s) /\ NoDup (map id (q s)) /\
+  forall x tl, q s = x :: tl -> Forall (fun y => due x <= due y) tl.
+Proof. exact TimerQueueProofs.queue_sorted. Qed.
+Print Assumptions C07_tq_order_sorted.
+
+(* ... ties are queued in the order of their enqueues (eseq = number of the enqueue) ... *)
+Theorem C07_tq_order_fifo_ties : forall now0 specs sched l1 x l2 y l3,
+  let s := fst (run step sched (init now0 specs, [])) in
+  q s = l1 ++ x :: l2 ++ y :: l3 -> due x = due y ->
+  (seqof (ops s) (id x) < seqof (ops s) (id y))%nat.
+Proof. exact TimerQueueProofs.fifo_ties. Qed.
+Print Assumptions C07_tq_order_fifo_ties.
+
+Theorem C07_tq_order_enqueue_numbers : forall s t s' evs,
+  step t s = Some (s', evs) ->
+  nenq s' = nenq s \/ (nenq s' = S (nenq s) /\ exists i d, q s' = insert_timed (d, i) (q s) /\ seqof (ops s') i = nenq s).
+Proof. exact TimerQueueProofs.enqueue_numbers. Qed.
+Print Assumptions C07_tq_order_enqueue_numbers.
+
+(* ... and the timer thread removes only the head, only when it is due; completions are then
+   delivered one at a time in that order (completion events are emitted by the timer thread for the
+   operation it popped: C07_tq_exactly_once counts them) *)
+Theorem C07_tq_order_timer_takes_head : forall s s' evs,
+  step 0 s = Some (s', evs) ->
+  q s' = q s \/ exists x, q s = x :: q s' /\ due x <= now s /\ tpc s' = TUnlockExec (id x).
+Proof. exact TimerQueueProofs.timer_takes_head. Qed.
+Print Assumptions C07_tq_order_timer_takes_head.
+
+(* cancel_prompt: once the cancel callback has passed its critical section the operation's due time
+   is <= now; if queued, its entry and everything in front of it are due *)
+Theorem C07_tq_cancel_prompt : forall now0 specs sched i o,
+  let c := run step sched (init now0 specs, []) in
+  let s := fst c in
+  nth_error (ops s) i = Some o -> cancelled o = true ->
+  dueT o <= now s /\
+  forall l1 d l2, q s = l1 ++ (d, i) :: l2 ->
+    d = dueT o /\ Forall (fun y => due y <= now s) (l1 ++ [(d, i)]).
+Proof. exact TimerQueueProofs.cancel_prompt. Qed.
+Print Assumptions C07_tq_cancel_prompt.
+
+(* exactly_once: at most one completion event per operation in the trace, none before start ... *)
+Theorem C07_tq_exactly_once : forall now0 specs sched i o,
+  let c := run step sched (init now0 specs, []) in
+  nth_error (ops (fst c)) i = Some o ->
+  (TimerQueueProofs.ccount i (snd c) <= 1)%nat /\ TimerQueueProofs.ccount i (snd c) = ncomp o /\
+  ((1 <= TimerQueueProofs.ccount i (snd c))%nat -> started o = true).
+Proof. exact TimerQueueProofs.at_most_once. Qed.
+Print Assumptions C07_tq_exactly_once.
+
+(* ... and nothing is lost: whenever no thread is in the middle of a call, a started operation is
+   completed or still queued (exactly one of the two, once); with an empty queue it has completed *)
+Theorem C07_tq_exactly_once_no_lost : forall now0 specs sched i o,
+  let c := run step sched (init now0 specs, []) in
+  quiescent (fst c) = true -> nth_error (ops (fst c)) i = Some o -> started o = true ->
+  (TimerQueueProofs.ccount i (snd c) + cnt i (q (fst c)) = 1)%nat /\ (q (fst c) = [] -> TimerQueueProofs.ccount i (snd c) = 1%nat).
+Proof. exact TimerQueueProofs.no_lost. Qed.
+Print Assumptions C07_tq_exactly_once_no_lost.
+
+Theorem C07_tq_unlinked_after_completion : forall now0 specs sched i o,
+  let c := run step sched (init now0 specs, []) in
+  nth_error (ops (fst c)) i = Some o -> (1 <= TimerQueueProofs.ccount i (snd c))%nat ->
+  ~ In i (map id (q (fst c))) /\ sholds o = false /\ cholds o = false /\ tholds i (tpc (fst c)) = false.
+Proof. exact TimerQueueProofs.unlinked_after_completion. Qed.
+Print Assumptions C07_tq_unlinked_after_completion.
+
+(* the hypotheses are met by concrete runs: 30/10/10 ms timers fire at 1010, 1010 (FIFO), 1030;
+   thread ids: 0 timer, 1..3 starters, 4..6 stoppers, 7 destroyer, 8 spurious wake-up, 9+k clock +(k+1) *)
+Definition ex_sched : list nat :=
+  [1;1;1;1;1;1; 2;2;2;2;2;2; 3;3;3;3;3; 0;0; 18; 0;0;0;0;0;0; 0;0;0;0;0;0; 0;0; 28; 0;0;0;0;0;0; 0;0]%nat.
+Example C07_tq_ex_order :
+  filter (fun e => match e with EFire _ _ | EDone _ _ => true | _ => false end)
+         (snd (run step ex_sched (init 1000 [(true, 30); (true, 10); (true, 10)], [])))
+  = [EFire 1 1010; EFire 2 1010; EFire 0 1030].
+Proof. vm_compute. reflexivity. Qed.
+
+(* stop requested before start (stopper 2 = thread n+1+0), then start: done at once, never value *)
+Example C07_tq_ex_prestopped :
+  filter (fun e => match e with EFire _ _ | EDone _ _ => true | _ => false end)
+         (snd (run step [2;2; 1;1;1;1;1;1;1; 0;0;0;0]%nat (init 1000 [(true, 500)], [])))
+  = [EDone 0 1000].
+Proof. vm_compute. reflexivity. Qed.
+
+(* cancel racing the pop: the timer thread has popped the operation, the stopper runs the callback,
+   the timer thread waits for it and completes with done *)
+Example C07_tq_ex_cancel_vs_pop :
+  filter (fun e => match e with EFire _ _ | EDone _ _ | ECbSeen _ => true | _ => false end)
+         (snd (run step [1;1;1;1;1;1; 0;0; 2;2; 0;0; 2;2;2; 0;0;0]%nat (init 1000 [(true, 0)], [])))
+  = [ECbSeen 0; EDone 0 1000].
+Proof. vm_compute. reflexivity. Qed.
+End TQ.
+
+Module UL.
+Import UnsafeLoop.
+
+(* DESIGN section 8, finding 3: with next_/prevPtr_ uninitialised (the code as it is) the schedule
+   "request_stop, then start of schedule_after(10)" reads prevPtr_ before anything wrote it *)
+Theorem C07_ul_no_uninit_read_refuted :
+  exists specs sched,
+    existsb UnsafeLoopProofs.is_uninit (snd (run step sched (init LUninit 1000 specs, []))) = true.
+Proof. exact UnsafeLoopProofs.no_uninit_read_refuted. Qed.
+Print Assumptions C07_ul_no_uninit_read_refuted.
+
+(* with the proposed default member initialisers (= nullptr) no schedule reads an uninitialised link *)
+Theorem C07_ul_no_uninit_read_fixed : forall now0 specs sched,
+  existsb UnsafeLoopProofs.is_uninit (snd (run step sched (init LNull now0 specs, []))) = false.
+Proof. exact UnsafeLoopProofs.no_uninit_read_fixed. Qed.
+Print Assumptions C07_ul_no_uninit_read_fixed.
+
+Theorem C07_ul_never_early : forall l0 now0 specs sched i t, l0 <> LSet ->
+  let c := run step sched (init l0 now0 specs, []) in
+  In (EFire i t) (snd c) ->
+  exists o d, nth_error (ops (fst c)) i = Some o /\ orig o = Some d /\ d <= t.
+Proof. exact UnsafeLoopProofs.never_early. Qed.
+Print Assumptions C07_ul_never_early.
+
+Theorem C07_ul_exactly_once : forall l0 now0 specs sched i o, l0 <> LSet ->
+  let c := run step sched (init l0 now0 specs, []) in
+  nth_error (ops (fst c)) i = Some o ->
+  (UnsafeLoopProofs.ccount i (snd c) <= 1)%nat /\ UnsafeLoopProofs.ccount i (snd c) = ncomp o /\
+  ((1 <= UnsafeLoopProofs.ccount i (snd c))%nat -> ph o = PDone).
+Proof. exact UnsafeLoopProofs.at_most_once. Qed.
+Print Assumptions C07_ul_exactly_once.
+
+Theorem C07_ul_unlinked_after_completion : forall l0 now0 specs sched i o, l0 <> LSet ->
+  let c := run step sched (init l0 now0 specs, []) in
+  nth_error (ops (fst c)) i = Some o -> (1 <= UnsafeLoopProofs.ccount i (snd c))%nat ->
+  ~ In i (map id (q (fst c))) /\ cbreg o = false.
+Proof. exact UnsafeLoopProofs.unlinked_after_completion. Qed.
+Print Assumptions C07_ul_unlinked_after_completion.
+
+Theorem C07_ul_order_sorted : forall l0 now0 specs sched, l0 <> LSet ->
+  let s := fst (run step sched (init l0 now0 specs, [])) in
+  sorted_due (q s) /\ NoDup (map id (q s)).
+Proof. exact UnsafeLoopProofs.queue_sorted. Qed.
+Print Assumptions C07_ul_order_sorted.
+
+Theorem C07_ul_cancel_prompt : forall l0 now0 specs sched i o, l0 <> LSet ->
+  let s := fst (run step sched (init l0 now0 specs, [])) in
+  nth_error (ops s) i = Some o -> sreq o = true -> ph o = PQueued ->
+  dueT o <= now s /\
+  forall l1 d l2, q s = l1 ++ (d, i) :: l2 -> d = dueT o /\ Forall (fun y => due y <= now s) (l1 ++ [(d, i)]).
+Proof. exact UnsafeLoopProofs.cancel_prompt. Qed.
+Print Assumptions C07_ul_cancel_prompt.
+
+(* thread ids for one operation: 0 loop, 1 start, 2 request_stop, 3+k clock *)
+Example C07_ul_ex_witness :
+  snd (run step [2; 1]%nat (init LUninit 1000 [(true, 10)], [])) = [EStop 0; EStart 0; EUninit 0].
+Proof. vm_compute. reflexivity. Qed.
+Example C07_ul_ex_fixed :
+  snd (run step [2; 1; 0; 0; 0]%nat (init LNull 1000 [(true, 10)], [])) = [EStop 0; EStart 0; EEnter; EDone 0 1000; EExit].
+Proof. vm_compute. reflexivity. Qed.
+End UL.
